@@ -473,7 +473,24 @@ func (eng *Engine) genOverlay(p *packages.Package, cf *ContractFile, fset *token
 				a.Clause.Pos = pos
 				lp := fset.Position(calls[a.Ordinal-1].Lparen)
 				a.File, a.Off = lp.Filename, lp.Offset
-				if a.SinceCallee != "" {
+				if a.SinceCallee == "if" {
+					var ifs []*ast.IfStmt
+					ast.Inspect(fi.decl.Body, func(n ast.Node) bool {
+						switch x := n.(type) {
+						case *ast.FuncLit:
+							return false
+						case *ast.IfStmt:
+							ifs = append(ifs, x)
+						}
+						return true
+					})
+					if a.SinceOrdinal < 1 || a.SinceOrdinal > len(ifs) {
+						return nil, fmt.Errorf("%s:%d: %s has %d if statements, contract names if %d", cf.Path, a.Clause.Line, fs.Name, len(ifs), a.SinceOrdinal)
+					}
+					cond := ifs[a.SinceOrdinal-1].Cond
+					sp, ep := fset.Position(cond.Pos()), fset.Position(cond.End())
+					a.SinceFile, a.SinceOff, a.SinceEnd = sp.Filename, sp.Offset, ep.Offset
+				} else if a.SinceCallee != "" {
 					sc := collectCalls(fi.decl, a.SinceCallee)
 					if a.SinceOrdinal < 1 || a.SinceOrdinal > len(sc) {
 						return nil, fmt.Errorf("%s:%d: %s has %d calls of %s, contract names call %d", cf.Path, a.Clause.Line, fs.Name, len(sc), a.SinceCallee, a.SinceOrdinal)
